@@ -583,6 +583,33 @@ int main(int argc, char **argv) {
             }
             putchar('\n');
         }
+        else if (!strcmp(c, "cachechain")) { /* cachechain <dirpath> : the directory-cache chain of a directory, read raw: per block its number,
+                                               record count and the (header key : record length) of every record */
+            if (goto_dir(a[1])) { out("err nopath"); continue; }
+            uint8_t db[512], cb[512];
+            if (adfReadBlock(vol, vol->curDirPtr, db) != RC_OK) { out("err read"); continue; }
+            #define BE32c(p_) (((uint32_t)(p_)[0] << 24) | ((p_)[1] << 16) | ((p_)[2] << 8) | (p_)[3])
+            uint32_t x = BE32c(db + 504); int guard = 0, firstb = 1;
+            printf("%d C ", lineno);
+            while (x && guard++ < 400) {
+                if (adfReadBlock(vol, x, cb) != RC_OK) { printf("%s%u=?", firstb ? "" : "|", x); break; }
+                uint32_t nrec = BE32c(cb + 12);
+                printf("%s%u=", firstb ? "" : "|", x); firstb = 0;
+                unsigned p_ = 0;
+                for (uint32_t i = 0; i < nrec && i < 64; i++) {
+                    if (p_ + 25 > 488) { printf("%s?", i ? "," : ""); break; }
+                    unsigned nl = cb[24 + p_ + 23]; unsigned cl = (p_ + 24 + nl < 488) ? cb[24 + p_ + 24 + nl] : 0;
+                    unsigned ln = 25 + nl + cl; ln += ln & 1;
+                    printf("%s%u:%u", i ? "," : "", BE32c(cb + 24 + p_), ln);
+                    p_ += ln;
+                }
+                /* bytes behind the last record must be zero (records are packed, the rest of the area is cleared) */
+                int dirty = 0; for (unsigned i = p_; i < 488; i++) if (cb[24 + i]) dirty = 1;
+                if (dirty) printf("!");
+                x = BE32c(cb + 16);
+            }
+            putchar('\n');
+        }
         else if (!strcmp(c, "filemap")) { /* filemap <dirpath> <name> : header and extension tables of a file, read raw block by block */
             if (goto_dir(a[1])) { out("err nopath"); continue; }
             struct bEntryBlock e;
